@@ -97,4 +97,8 @@ def judge(ck, module, cfg, events, wdir, tag="batch", shard=20000, timeout=1200,
             if p.startswith("VP|fail|"):
                 f = p.split("|")
                 failed.setdefault(int(f[2]), []).append(f[3] if len(f) > 3 else "")
+            elif p.startswith("VP|skip|"):
+                f = p.split("|")
+                key = "skipped:" + (f[3] if len(f) > 3 else "")
+                ck.extra[key] = ck.extra.get(key, 0) + 1
     return failed
